@@ -264,6 +264,29 @@ def check(ctx):
                                detail=label, nontrivial=False)
                         check_coords(ctx, "R1", rg, label, coords, bounds, within, who)
                         _check_bins(ctx, rg, t, bins_, label, "region", bounds)
+    # ------------------------------------------- limit= through children/parents
+    for meth in ("children", "parents"):
+        f = require_func(ctx, "interface.FeatureDB." + meth)
+        for (ln, lim) in limit_options()[1:]:
+            for within in (False, True):
+                n_part += 1
+                label = "%s limit=%s within=%s" % (meth, ln, within)
+                for t in it.run(f, dict(id=Sym("id", "str"), limit=lim, completely_within=within)):
+                    ex = t.executes()
+                    if t.result[0] == "raise" or len(ex) != 1:
+                        ctx.ob("R4", False, "%s builds one statement for a limit" % meth, func=f,
+                               sig="%s limit: %s" % (meth, "raises %s" % t.result[1] if t.result[0] == "raise" else "%d statements" % len(ex)), detail=label)
+                        continue
+                    bq = BoundQuery(ex[0][1], ex[0][2])
+                    if bq.problems:
+                        ctx.ob("R4", False, "%s limit statement parses and binds" % meth, func=f, sig="%s limit: %s" % (meth, bq.problems[0].split("::")[0]), detail=label)
+                        continue
+                    filters, coords, bins_, joins, others, probs = normalise_filters(where_conjuncts(bq))
+                    ok = filters.get("seqid") == frozenset(["seqid"])
+                    ctx.ob("R5", ok, "%s(limit=...) restricts to the limit's seqid" % meth, func=f,
+                           sig="%s limit seqid restriction %s" % (meth, sorted(map(str, filters.get("seqid", [])))), detail=label, nontrivial=False)
+                    check_coords(ctx, "R1", f, label, coords, {"S", "E"}, within, "%s limit=%s" % (meth, ln))
+                    _check_bins(ctx, f, t, bins_, label, "make_query")
     ctx.extra["partitions"] = n_part
     ctx.exhaustive = True
     _r3_bin_provenance(ctx)
@@ -279,6 +302,11 @@ def _check_bins(ctx, func, trace, bins_, label, who, bounds=frozenset({"S", "E"}
         ctx.ob("R2", False, "a bin restriction needs both bounds", func=func,
                sig="%s: bin restriction with bounds %s" % (who, sorted(bounds)), detail=label)
         return
+    hole = bins_[0][1:].split("|")[0]
+    ctx.ob("R2", hole == "bins", "the restriction lists the whole result of bins(one=False), not a filtered or otherwise derived selection of it "
+           "(dropping bins drops features stored in them)", func=func,
+           sig="%s: restriction over the unmodified bin set" % who if hole == "bins" else "%s: restriction over a derived bin collection (%s)" % (who, hole),
+           detail=label, nontrivial=False)
     calls = [e for e in trace.events if e[0] == "bins" and e[3] is False]
     ok = False
     got = None
